@@ -251,7 +251,7 @@ def strategy():
 
 def run_shard(ctx):
     stats = core.Stats()
-    n = 3000 if ctx.tier == "thorough" else 600
+    n = 30000 if ctx.tier == "thorough" else 600
     core.hyp_search(strategy(), lambda c: execute(c, ctx.scratch), stats, max_examples=n,
                     seed=core.hash64(ctx.seed, ID, ctx.shard), findings=ctx.findings,
                     deadline_s=(ctx.deadline - time.time()) if ctx.deadline else None)
